@@ -93,8 +93,12 @@ def h_declared(ctx, cfg):
             exec_alts = [Exec(o, [(s, cal)]) for s in _hidden_sites(p)]
             p.callee = saved
         ex = Or(*exec_alts) if len(exec_alts) > 1 else exec_alts[0]
+    shared = set(p.outer.named) & set(p.callee.named)
     if not decorated:
         ctx.count('decoration-raised')
+        if shared:      # embed may refuse inputs that declare the same name (C02's raise clause)
+            ctx.count('raised-shared-name')
+            return
         ctx.refute('ValueError-only-if-never-callable', qn, ex, lambda: dict(exc=repr(dec_err)))
         return
     f = p.objs['f']
@@ -109,6 +113,9 @@ def h_declared(ctx, cfg):
             # hide_args declares that the foreign star fills every positional parameter; naming one of them as
             # well contradicts the declaration itself (documented contract of the flag): nothing is demanded
             ctx.count('hide_args-with-positional-name')
+            return
+        if shared:      # embed may refuse inputs that declare the same name (C02's raise clause)
+            ctx.count('raised-shared-name')
             return
         ctx.refute('ValueError-only-if-never-callable', qn, ex, lambda: dict(exc=repr(e), features=p.label(), unbound=unbound))
         return
